@@ -22,16 +22,33 @@ ORDER_PRESERVING = {'builtins.list', 'builtins.tuple', 'builtins.filter', 'built
                     'itertools.chain', 'itertools.chain.from_iterable'}
 
 
-def launch_loops(ctx: Ctx, g: Graph) -> List[Tuple[Ev, set, Ev]]:
-    """(loop header, body region, the WAIT event keyed by the loop variable) of loops that spawn."""
+def launch_loops(ctx: Ctx, g: Graph) -> List[Tuple[Ev, set, Optional[Ev]]]:
+    """(loop header, body region, the WAIT event keyed by the loop variable or None) of *launch loops*:
+    loops whose body hands a coroutine that takes the loop variable itself (the node) as an argument to the
+    task spawner."""
     out = []
     for lp in g.events('loop'):
         if lp.info.get('comp') is not None:
             continue
         region = loop_region(g, lp, labels=('n', 'T', 'F', 'back', 'exc'))
-        if not any(ctx.roles.spawn(g.evs[n]) for n in region if g.evs[n].kind == 'call'):
-            continue
         key = ('elem', sym.term(ctx.p, lp.info['iter'], lp.inst))
+        per_node = False
+        for m in region:
+            ev = g.evs[m]
+            if ev.kind != 'call' or not (ev.info.get('coro') or (ev.info.get('inlined') and ev.info.get('awaited'))):
+                continue
+            if ev.inst is not lp.inst:
+                continue
+            c = ev.node
+            tg = [t for t in ev.info.get('targets', ()) if t[0] == 'func' and t[1].is_async and t[1].fid in ctx.task_roots()]
+            if not tg:
+                continue
+            args = [sym.term(ctx.p, a, ev.inst) for a in c.args if not isinstance(a, ast.Starred)] + \
+                   [sym.term(ctx.p, k.value, ev.inst) for k in c.keywords if k.arg is not None]
+            if key in args:
+                per_node = True
+        if not per_node:
+            continue
         wait = None
         for n in sorted(region):
             ev = g.evs[n]
@@ -39,8 +56,6 @@ def launch_loops(ctx: Ctx, g: Graph) -> List[Tuple[Ev, set, Ev]]:
             if w is not None and w[0] == key:
                 wait = ev
                 break
-        if wait is None:
-            continue
         out.append((lp, region, wait))
     return out
 
@@ -97,6 +112,8 @@ def rule_ready_reads(ctx: Ctx, out: Collector) -> None:
     seen = set()
     for fid, g in ctx.run_graphs().items():
         for lp, region, wait in launch_loops(ctx, g):
+            if wait is None:
+                continue            # reported by RD-1 (no readiness wait at all)
             pred = wait.info.get('pred')
             cons = f'{lp.inst.unit.module.name}::{lp.inst.unit.qualname}::readiness predicate of the launch loop'
             if cons in seen:
@@ -134,7 +151,7 @@ def rule_ready_reads(ctx: Ctx, out: Collector) -> None:
                         f'the readiness predicate reads {sym.show(kt)}, which is not derived from the node being launched: '
                         f'a node waits for something else than its own inputs',
                         [f'{e.where()} [call] {e.text()} key={sym.show(k)}' for e, k in bad[:5]])
-    if n == 0:
+    if n == 0 and not any(launch_loops(ctx, g) for g in ctx.run_graphs().values()):
         raise AnalysisError('no launch loop found (CC-3 anchor vanished)')
 
 
